@@ -350,6 +350,13 @@ fn lua_grid(out: &mut Out) {
 }
 
 fn lua_fixed(out: &mut Out, argv: &Argv) {
+    lua_fixed_with(out, argv, false)
+}
+
+/// `literal`: arguments that are canonical integers are written into the script as Lua integer literals
+/// (redis.call('EXPIRE', ARGV[1], -1)) instead of travelling as strings: a number a script passes means the
+/// same as its decimal rendering sent by a client.
+fn lua_fixed_with(out: &mut Out, argv: &Argv, literal: bool) {
     let run = out.n + 1;
     let now = 1000u64;
     let mut twins: Vec<CommandExecutor> = (0..3).map(|_| CommandExecutor::new()).collect();
@@ -373,7 +380,17 @@ fn lua_fixed(out: &mut Out, argv: &Argv) {
         Err(e) => RespValue::err(e),
     });
     let script = |f: &str, ex: &mut CommandExecutor| {
-        let mut a: Argv = vec![b("EVAL"), b(&format!("return redis.{f}(table.unpack(ARGV))")), b("0")];
+        let text = if literal {
+            let parts: Vec<String> = argv.iter().enumerate().map(|(i, x)| {
+                let t = String::from_utf8_lossy(x).to_string();
+                let canon = i > 0 && t.parse::<i64>().map(|n| n.to_string() == t && n.abs() < (1 << 50)).unwrap_or(false);
+                if canon { t } else { format!("ARGV[{}]", i + 1) }
+            }).collect();
+            format!("return redis.{f}({})", parts.join(", "))
+        } else {
+            format!("return redis.{f}(table.unpack(ARGV))")
+        };
+        let mut a: Argv = vec![b("EVAL"), b(&text), b("0")];
         a.extend(argv.clone());
         catch(|| match parse_argv(&a) {
             Ok(cmd) => ex.execute(&cmd),
@@ -388,6 +405,29 @@ fn lua_fixed(out: &mut Out, argv: &Argv) {
                      "direct": {"rs": [j(&direct)], "sh": canon(&ds), "sh_first_err": canon(&ds), "s": ds},
                      "call": {"r": j(&call), "sh": canon(&cs), "s": cs},
                      "pcall": {"r": j(&pcall), "sh": canon(&ps), "s": ps}}));
+}
+
+/// Numbers passed by a script as numbers: every numeric argument position of the data commands with negative,
+/// zero and positive integers (cursors, counts, offsets, indices, TTLs, increments, scores, limits).
+fn lua_numeric(out: &mut Out) {
+    let cases: Vec<Vec<&str>> = vec![
+        vec!["SCAN", "-1"], vec!["SCAN", "0", "COUNT", "-5"], vec!["SCAN", "0", "COUNT", "0"], vec!["HSCAN", "h", "-1"], vec!["ZSCAN", "z", "-3"],
+        vec!["SETRANGE", "s", "-1", "x"], vec!["SETRANGE", "s", "2", "x"], vec!["GETBIT", "s", "-1"], vec!["GETBIT", "s", "3"], vec!["SETBIT", "s", "-1", "1"],
+        vec!["SETBIT", "s", "7", "1"], vec!["SETBIT", "s", "7", "-1"], vec!["LPOP", "l", "-1"], vec!["LPOP", "l", "1"], vec!["RPOP", "l", "-2"], vec!["RPOP", "l", "0"],
+        vec!["SELECT", "-1"], vec!["SELECT", "0"], vec!["EXPIRE", "s", "-1"], vec!["EXPIRE", "s", "100"], vec!["PEXPIRE", "s", "-5"], vec!["PEXPIRE", "s", "5000"],
+        vec!["EXPIREAT", "s", "-1"], vec!["PEXPIREAT", "s", "-1"], vec!["INCRBY", "n", "-7"], vec!["INCRBY", "n", "7"], vec!["DECRBY", "n", "-3"], vec!["INCRBY", "s", "1"],
+        vec!["LRANGE", "l", "-2", "-1"], vec!["LRANGE", "l", "0", "-1"], vec!["LTRIM", "l", "-1", "0"], vec!["LINDEX", "l", "-1"], vec!["LSET", "l", "-1", "q"], vec!["LSET", "l", "-9", "q"],
+        vec!["GETRANGE", "s", "-3", "-1"], vec!["ZRANGE", "z", "-2", "-1"], vec!["ZREVRANGE", "z", "0", "-1"], vec!["ZADD", "z", "-5", "m"], vec!["ZADD", "z", "3", "m"],
+        vec!["ZRANGEBYSCORE", "z", "-1", "5", "LIMIT", "0", "-1"], vec!["ZRANGEBYSCORE", "z", "0", "5", "LIMIT", "-1", "2"], vec!["ZRANGEBYSCORE", "z", "0", "5", "LIMIT", "0", "0"],
+        vec!["ZCOUNT", "z", "-1", "1"], vec!["HINCRBY", "h", "f", "-4"], vec!["HINCRBY", "h", "f", "4"], vec!["SETEX", "s", "-1", "v"], vec!["SETEX", "s", "10", "v"], vec!["PSETEX", "s", "0", "v"],
+        vec!["SET", "s", "v", "EX", "-1"], vec!["SET", "s", "v", "PX", "100"], vec!["SET", "s", "5"], vec!["SET", "s", "-5"], vec!["GETEX", "s", "EX", "-1"], vec!["GETEX", "s", "PX", "50"],
+        vec!["APPEND", "s", "12"], vec!["RPUSH", "l", "-1", "2"], vec!["SADD", "st", "-1", "0"], vec!["HSET", "h", "g", "-2"], vec!["SISMEMBER", "st", "-1"], vec!["MSET", "a", "-1", "b2", "2"],
+        vec!["ECHO", "-17"], vec!["DEL", "s", "-1"], vec!["EXISTS", "s", "0"], vec!["LPUSH", "l", "0"], vec!["HGET", "h", "0"],
+    ];
+    for c in cases {
+        let argv: Argv = c.iter().map(|x| b(x)).collect();
+        lua_fixed_with(out, &argv, true);
+    }
 }
 
 /// Twin executors: a program of commands run directly, through redis.call and through redis.pcall.
@@ -494,6 +534,7 @@ pub fn main(args: &[String]) -> i32 {
         Some("frames") => frames(&mut out, &mut gen, a.str("tier", "quick") == "thorough"),
         Some("lua") => {
             lua_grid(&mut out);
+            lua_numeric(&mut out);
             for _ in 0..a.usize("n", 1000) {
                 lua_case(&mut out, &mut gen);
             }
